@@ -395,6 +395,14 @@ impl Drop for SimCore {
             for r in log.iter() {
                 h = rng::mix(&[h, r.stable_hash()]);
             }
+            if std::env::var_os("VERIF_DUMP_LOG").is_some() {
+                let mut out = String::new();
+                for r in log.iter() {
+                    out.push_str(&r.line());
+                    out.push('\n');
+                }
+                eprintln!("=== world log hash {h:016x}\n{out}");
+            }
             GLOBAL_LOG_DIGEST.fetch_xor(h, SeqCst);
             GLOBAL_WORLDS.fetch_add(1, SeqCst);
         }
@@ -458,6 +466,32 @@ enum Step {
     Die(Dead),
 }
 
+pub const SIM_EPOCH: i64 = 1_700_000_000;
+
+fn simulated_clock_rewrite(op: &Op, seq: u64) -> Option<Op> {
+    let Op::Write { path, content, mode } = op else { return None };
+    let key = if path.ends_with("BANDHEAD") {
+        "start_time"
+    } else if path.ends_with("BANDTAIL") {
+        "end_time"
+    } else {
+        return None;
+    };
+    let mut v: serde_json::Value = serde_json::from_slice(content).ok()?;
+    let obj = v.as_object_mut()?;
+    if !obj.contains_key(key) {
+        return None;
+    }
+    obj.insert(key.to_string(), serde_json::json!(SIM_EPOCH + seq as i64));
+    let mut bytes = serde_json::to_vec(&v).ok()?;
+    bytes.push(b'\n');
+    Some(Op::Write {
+        path: path.clone(),
+        content: Bytes::from(bytes),
+        mode: *mode,
+    })
+}
+
 impl Interceptor {
     fn decide(&self, idx: u32) -> (Option<Fault>, u8) {
         // The decision depends only on (plan, idx), never on timing.
@@ -505,6 +539,19 @@ impl Interceptor {
     fn perform(&self, op: &Op, idx: u32, fault: Option<Fault>, delayed: u8) -> Step {
         let mut store = self.core.store.lock().unwrap();
         let mut log = self.core.log.lock().unwrap();
+        // The clock seam: the only wall-clock values Conserve ever stores are start_time in
+        // BANDHEAD and end_time in BANDTAIL. They are replaced here, on their way to the store,
+        // by simulated time (a function of the global operation sequence number), so that the
+        // stored bytes - and everything that later depends on them, such as which byte a
+        // seeded bit flip hits - are a function of the scenario alone.
+        let rewritten;
+        let op = match simulated_clock_rewrite(op, log.len() as u64) {
+            Some(o) => {
+                rewritten = o;
+                &rewritten
+            }
+            None => op,
+        };
         let (len, content_hash) = match op {
             Op::Write { content, .. } => (content.len(), rng::hash_bytes(content)),
             _ => (0, 0),
